@@ -254,6 +254,42 @@ def norm_eq(a, b):
         return False
 
 
+def _unroll_table_loops(scope):
+    """`for a, b in H():` where the new helper H returned a literal table ((x1, y1), (x2, y2), ...) of simple expressions reads, after
+    the substitution, `for a, b in ((x1, y1), ...)`: such a loop (no break / continue / else, targets not re-bound in the body) is the
+    body once per row with the row's expressions for the targets -- the if-chain it replaced."""
+    for lst in list(_stmt_lists(scope)):
+        i = 0
+        while i < len(lst):
+            st = lst[i]
+            i += 1
+            if not (isinstance(st, ast.For) and getattr(st.iter, '_from_helper', False) and isinstance(st.iter, (ast.Tuple, ast.List))
+                    and not st.orelse and 0 < len(st.iter.elts) <= 12):
+                continue
+            tg = st.target
+            names = [tg.id] if isinstance(tg, ast.Name) else [e.id for e in tg.elts] if isinstance(tg, ast.Tuple) and all(
+                isinstance(e, ast.Name) for e in tg.elts) else None
+            if names is None:
+                continue
+            rows = []
+            for row in st.iter.elts:
+                vals = [row] if isinstance(tg, ast.Name) else list(row.elts) if isinstance(row, (ast.Tuple, ast.List)) and len(row.elts) == len(names) else None
+                if vals is None or not all(_simple(v) for v in vals):
+                    rows = None
+                    break
+                rows.append(vals)
+            inner = [x for b_ in st.body for x in ast.walk(b_)]
+            if rows is None or any(isinstance(x, (ast.Break, ast.Continue, ast.FunctionDef, ast.Lambda)) for x in inner) or \
+                    any(isinstance(x, ast.Name) and x.id in names and isinstance(x.ctx, (ast.Store, ast.Del)) for x in inner):
+                continue
+            new = []
+            for vals in rows:
+                sub = _Subst(dict(zip(names, vals)))
+                new += [sub.visit(copy.deepcopy(b_)) for b_ in st.body]
+            lst[i - 1:i] = new
+            i += len(new) - 1
+
+
 def _is_call_of(node, fn, kind):
     if not isinstance(node, ast.Call):
         return False
@@ -480,9 +516,12 @@ def expand(module_name, tree):
                             if b is not None and not b[0]:
                                 n += 1
                                 e = _Subst(b[1]).visit(copy.deepcopy(body[0].value))
+                                e._from_helper = True
                                 return ast.copy_location(e, node)
                         return node
                 _R().visit(scope)
+                if n:
+                    _unroll_table_loops(scope)
             for lst in list(_stmt_lists(scope)):
                 if any(s is fn for s in lst) and False:
                     continue
